@@ -1075,7 +1075,12 @@ def path_to_tree_path(
     if isinstance(path, bytes):
         path = os.fsdecode(path)
     path = Path(path)
-    resolved_path = path.resolve()
+    if path.is_symlink():
+        # A symbolic link is tracked under its own name, whatever it points
+        # at: resolve the directory that contains it, not the link itself.
+        resolved_path = path.parent.resolve() / path.name
+    else:
+        resolved_path = path.resolve()
 
     # Resolve and abspath seems to behave differently regarding symlinks,
     # as we are doing abspath on the file path, we need to do the same on
@@ -4072,6 +4077,14 @@ def _walk_working_dir_paths(
             if dirpath != basepath:
                 continue
 
+        # os.walk lists a symbolic link that points at a directory among the
+        # directory names (without descending into it). To git a link is a
+        # single path, whatever it points at: report it like a file.
+        for dirname in list(dirnames):
+            if os.path.islink(os.path.join(dirpath, dirname)):  # type: ignore[call-overload]
+                dirnames.remove(dirname)
+                filenames.append(dirname)
+
         if precompose_unicode and isinstance(dirpath, str):
             dirpath = _precompose_unicode_path(dirpath)
             dirnames[:] = [
@@ -4146,7 +4159,7 @@ def get_untracked_paths(
                 entry_path = os.path.join(dir_path, entry)
                 rel_entry = os.path.join(base_rel_path, entry)
 
-                if os.path.isfile(entry_path):
+                if os.path.islink(entry_path) or os.path.isfile(entry_path):
                     if ignore_manager.is_ignored(rel_entry) is not True:
                         return True
                 elif os.path.isdir(entry_path):
